@@ -59,21 +59,39 @@ func verifChain() *Blockchain {
 	return bc
 }
 
-// verifValidators installs n validators with symbolic positive stakes, all
-// recorded as present in the current block, and computes the powers.
-func verifValidators(bc *Blockchain, n int) ([]types.Pubkey, []*big.Int) {
+// verifValidators installs n validators with symbolic positive stakes and
+// computes the powers.  Each validator's status in the block is a harness
+// choice: reported present, reported absent, or missing from the commit info
+// altogether (a validator that joined the set but is not yet in Tendermint's
+// LastCommitInfo).  present[i] tells whether validator i counts as present.
+func verifValidators(bc *Blockchain, n int) ([]types.Pubkey, []*big.Int, []bool) {
 	var keys []types.Pubkey
 	var stakes []*big.Int
+	var present []bool
 	for i := 0; i < n; i++ {
 		k := verifPubkey(byte(i + 1))
 		s := verifBigPos("stake" + string(rune('1'+i)))
+		if verifConfig("stakeBits") > 0 {
+			// bound needed by the FloatingPoint model of big.Float (total power < 2^64)
+			verifAssume(s.Cmp(new(big.Int).Lsh(big.NewInt(1), uint(verifConfig("stakeBits")))) < 0)
+		}
 		bc.stateDeliver.Validators.Create(k, s)
 		keys = append(keys, k)
 		stakes = append(stakes, s)
 	}
-	for _, v := range bc.stateDeliver.Validators.GetValidators() {
-		bc.validatorsStatuses[v.GetAddress()] = ValidatorPresent
+	for i, v := range bc.stateDeliver.Validators.GetValidators() {
+		st := 0
+		if verifConfig("statuses") == 1 {
+			st = verifChoice("status"+string(rune('1'+i)), 3)
+		}
+		switch st {
+		case 0:
+			bc.validatorsStatuses[v.GetAddress()] = ValidatorPresent
+		case 1:
+			bc.validatorsStatuses[v.GetAddress()] = ValidatorAbsent
+		}
+		present = append(present, st == 0)
 	}
 	bc.calculatePowers(bc.stateDeliver.Validators.GetValidators())
-	return keys, stakes
+	return keys, stakes, present
 }
